@@ -37,6 +37,8 @@ def run(ctx: Ctx) -> None:
     _memo.rule_arg_names(ctx, ['graphiq/backends/lc_equivalence_check.py', 'graphiq/backends/stabilizer/functions/local_cliff_equi_check.py', 'graphiq/backends/graph/state.py'])
     _memo.rule_fixed_width(ctx, ['graphiq/backends/lc_equivalence_check.py', 'graphiq/backends/stabilizer/functions/local_cliff_equi_check.py', 'graphiq/backends/graph/state.py'])
     _memo.rule_paste_incomplete(ctx, ['graphiq/backends/lc_equivalence_check.py', 'graphiq/backends/stabilizer/functions/local_cliff_equi_check.py', 'graphiq/backends/graph/state.py'])
+    _memo.rule_negative_start(ctx, ['graphiq/backends/lc_equivalence_check.py', 'graphiq/backends/stabilizer/functions/local_cliff_equi_check.py', 'graphiq/backends/graph/state.py'])
+    _memo.rule_elim_no_pivot(ctx, ['graphiq/backends/lc_equivalence_check.py', 'graphiq/backends/stabilizer/functions/local_cliff_equi_check.py', 'graphiq/backends/graph/state.py'])
     repo = ctx.repo
     tables.rule_gl22(ctx)
     rule_token_order(ctx)
